@@ -1362,6 +1362,59 @@ func runC06(env *Env) {
 		res, show := g.strRes(fmt.Sprintf("x.toFixed(%d)", fd))
 		env.Add(fmt.Sprintf("CFixed %s %d %s", Cdouble(t), fd, res), fmt.Sprintf("pinned x=%v; x.toFixed(%d) -> %s", t, fd, show), "tofixed/pinned-near-tie", true)
 	}
+	// characters that look like white space but are not StrWhiteSpaceChar, around a numeral and alone,
+	// also next to real white space: never trimmed, by any of the three functions
+	for _, c := range []uint16{0x85, 0x200B, 0x200C, 0x200D, 0x2060, 0x1C, 0x1D, 0x1E, 0x1F, 0x00, 0x08, 0x7F, 0x2800, 0x3164, 0x115F, 0xAD} {
+		g.caseNumU([]uint16{c, '1', '2'}, "pinned-not-ws")
+		g.caseNumU([]uint16{'1', '2', c}, "pinned-not-ws")
+		g.caseNumU([]uint16{c}, "pinned-not-ws")
+		g.caseNumU([]uint16{' ', c, '7', 0xA0}, "pinned-not-ws")
+		g.casePIntU([]uint16{c, '1', '2'}, "", "None", "pinned-not-ws")
+		g.casePFloatU([]uint16{0x2028, c, '1', '.', '5'}, "pinned-not-ws")
+	}
+	// digit counts that are not integers, just outside and just inside the ranges: ToInteger truncates first
+	for _, f := range []float64{1.5, 123.456} {
+		Must(g.vm.Set("x", f))
+		for _, a := range []struct {
+			js string
+			v  int
+		}{{"-0.5", 0}, {"-0.9", 0}, {"20.5", 20}, {"20.9", 20}, {"'20.5'", 20}, {"({valueOf: function(){ return 20.5 }})", 20}, {"0.5", 0}, {"21.5", 21}, {"21.9", 21}, {"-1.5", -1}, {"22.5", 22}, {"1.9", 1}, {"NaN", 0}, {"'x'", 0}, {"null", 0}} {
+			res, show := g.strRes("x.toFixed(" + a.js + ")")
+			env.Add(fmt.Sprintf("CFixed %s %s %s", Cdouble(f), Cz(int64(a.v)), res), fmt.Sprintf("pinned x=%v; x.toFixed(%s) -> %s", f, a.js, show), "tofixed/pinned-fractional-count", true)
+			res, show = g.strRes("x.toExponential(" + a.js + ")")
+			env.Add(fmt.Sprintf("CExp %s (Some %s) %s", Cdouble(f), Cz(int64(a.v)), res), fmt.Sprintf("pinned x=%v; x.toExponential(%s) -> %s", f, a.js, show), "toexponential/pinned-fractional-count", true)
+			res, show = g.strRes("x.toPrecision(" + a.js + ")")
+			env.Add(fmt.Sprintf("CPrec %s %s %s", Cdouble(f), Cz(int64(a.v)), res), fmt.Sprintf("pinned x=%v; x.toPrecision(%s) -> %s", f, a.js, show), "toprecision/pinned-fractional-count", true)
+		}
+	}
+	// parseInt: every spelling of the hex prefix against every way of giving the radix (15.1.2.2 steps 6-10:
+	// the prefix is stripped only for radix 0 / undefined / 16)
+	radixForms := []struct{ js, coq string }{
+		{"", "None"}, {"undefined", "None"}, {"void 0", "None"}, {"0", "(Some " + Cdouble(0) + ")"}, {"null", "(Some " + Cdouble(0) + ")"},
+		{"10", "(Some " + Cdouble(10) + ")"}, {"16", "(Some " + Cdouble(16) + ")"}, {"'16'", "(Some " + Cdouble(16) + ")"}, {"16.9", "(Some " + Cdouble(16.9) + ")"},
+		{"8", "(Some " + Cdouble(8) + ")"}, {"2", "(Some " + Cdouble(2) + ")"}, {"36", "(Some " + Cdouble(36) + ")"}, {"34", "(Some " + Cdouble(34) + ")"}, {"37", "(Some " + Cdouble(37) + ")"},
+		{"4294967312", "(Some " + Cdouble(4294967312) + ")"}, {"-16", "(Some " + Cdouble(-16) + ")"},
+	}
+	for _, t := range []string{"0x1f", "0X1F", "-0x1f", "+0X10", " 0x11", "0x", "0xg", "0x0", "00x1f", "0x1f.8", "1f", "10"} {
+		for _, rf := range radixForms {
+			g.casePInt(t, rf.js, rf.coq, "pinned-prefix-radix")
+		}
+	}
+	// parseFloat / Number: Infinity in every sign, with and without trailing text, its proper prefixes and other cases
+	for _, sign := range []string{"", "+", "-"} {
+		for _, word := range []string{"Infinity", "Infinit", "Infin", "Inf", "infinity", "INFINITY", "Infinityy"} {
+			for _, tail := range []string{"", "x", " and beyond", "1", "e5", ".5", "Infinity", "_", " ", "\u00a0x", "-", "+1"} {
+				if word != "Infinity" && len(tail) > 1 {
+					continue
+				}
+				g.casePFloat(sign+word+tail, "pinned-infinity")
+				if tail == "" || tail == "x" || tail == " " {
+					g.casePFloat(" \t"+sign+word+tail, "pinned-infinity")
+					g.caseNum(sign+word+tail, "pinned-infinity")
+				}
+			}
+		}
+	}
 	g.caseLit("0x8000000000000401", "pinned")
 	g.caseLit("01000000000000000000000", "pinned")
 
@@ -1423,6 +1476,8 @@ func runC06(env *Env) {
 			}
 			s, b := g.numberText()
 			switch r.Intn(8) {
+			case 5:
+				s, b = g.ws()+Pick(r, []string{"", "+", "-", "-", "+"})+"Infinity"+Pick(r, []string{"", "x", " and beyond", "0", "e1", ".", "Infinity", "\u3000", "-Infinity", "y z", ","}), "infinity+tail"
 			case 0:
 				s, b = g.ws()+g.overflowText(true), "overflow+junk"
 			case 1:
